@@ -334,6 +334,13 @@ def vary_contour(rng, it, prob=0.3):
     return it
 
 
+def vary_dealiasing(rng, it, prob=0.3):
+    """Documented option of every semi-linear stepper: with probability `prob` use a non-default dealiasing fraction (1.0 = keep everything below Nyquist)."""
+    if not SPECS[it["cls"]]["linear"] and rng.uniform() < prob:
+        it["kw"]["dealiasing_fraction"] = float(rng.choice([1.0, 0.5, 0.8, 2 / 3]))
+    return it
+
+
 def build(ex, it, **override):
     """Build the real stepper from an intent (what the caller would type)."""
     spec = SPECS[it["cls"]]
